@@ -2,3 +2,8 @@ SPECIFICATION Spec
 INVARIANT Final
 POSTCONDITION Consumed
 CHECK_DEADLOCK FALSE
+CONSTANTS
+  U16MAX = 65535
+  PROFILE = "debug"
+  ROWCAP = 50
+  BLOCKCAP = 100
